@@ -1,0 +1,55 @@
+//go:build verif
+
+package origins
+
+// Contracts for package origins (comment-only; read by /verif/govc).
+
+//@ func isDigit
+//@   props C01 C13 C17 C18
+//@   inline
+//@   byexec
+//@   ensures result == ('0' <= b && b <= '9')
+
+//@ func isNonZeroDigit
+//@   props C01 C13 C17 C18
+//@   inline
+//@   byexec
+//@   ensures result == ('1' <= b && b <= '9')
+
+//@ func isLowerAlpha
+//@   props C01 C13 C17 C18
+//@   inline
+//@   byexec
+//@   ensures result == ('a' <= b && b <= 'z')
+
+//@ func isSubsequentSchemeByte
+//@   props C01 C13 C17 C18
+//@   inline
+//@   byexec
+//@   ensures result == (('a' <= b && b <= 'z') || ('0' <= b && b <= '9') || b == '+' || b == '-' || b == '.' || b == '_')
+
+//@ func isASCIILabelByte
+//@   props C01 C13 C17 C18
+//@   inline
+//@   byexec
+//@   ensures result == (('a' <= b && b <= 'z') || ('0' <= b && b <= '9') || b == '-' || b == '_')
+
+//@ func intFromDigit
+//@   props C01 C13 C17 C18
+//@   pure
+//@   allocs <= 0
+//@   ensures result == b - 48
+
+//@ func parseScheme
+//@   props C01 C13 C17 C18
+//@   pure
+//@   allocs <= 0
+//@   ensures result2 == (len(str) > 0 && isLowerAlpha(str[0]))
+//@   ensures !result2 ==> result1 === str && len(result0) == 0
+//@   ensures result2 ==> result0 === str[:len(result0)] && result1 === str[len(result0):]
+//@   ensures result2 ==> 1 <= len(result0) && len(result0) <= 64 && len(result0) <= len(str)
+//@   ensures result2 ==> (forall k :: 1 <= k && k < len(result0) ==> isSubsequentSchemeByte(str[k]))
+//@   ensures result2 ==> (len(result0) == 64 || len(result0) == len(str) || !isSubsequentSchemeByte(str[len(result0)]))
+//@   loop 0 invariant 1 <= i && i <= end
+//@   loop 0 invariant forall k :: 1 <= k && k < i ==> isSubsequentSchemeByte(str[k])
+//@   loop 0 decreases end - i
